@@ -50,9 +50,9 @@ claim("C10", "other",
       "Not decided: equality with the ROM routine for all blocks/requests beyond the explored loop depth (the loop body is the same each iteration, but no inductive argument is made).",
       "DESIGN.md §3 C10")
 claim("C11", "proof",
-      "transition table of Tap::process_clocks extracted by abstract interpretation per pulse state (symbolic counter/mask/byte) and compared with the standard waveform table; delay countdown decided by linear arithmetic; inductive window invariant of the block reader (T-INV)",
-      "All 8 states x data conditions: pulse lengths, toggles, successor states, pilot counts by flag byte, MSB-first bit order, pause, end of tape; countdown stores only 0 or delay-clocks; stopped deck inert.",
-      "Upper jitter bound and equivalence with fast loading are not claimed.",
+      "transition table of Tap::process_clocks extracted by abstract interpretation per pulse state (symbolic counter/mask/byte) and compared with the standard waveform table; delay countdown decided by linear arithmetic; interprocedural upper bound of the step argument over every call site of the workspace (T-BOUND); inductive window invariant of the block reader (T-INV)",
+      "All 8 states x data conditions: pulse lengths, toggles, successor states, pilot counts by flag byte, MSB-first bit order, pause, end of tape; countdown stores only 0 or delay-clocks (no pulse shorter than nominal); largest step reaching the tape is 8 T-states, hence no pulse more than 15 (<= 32) T-states longer; stopped deck inert.",
+      "Equivalence of real-time loading with fast loading (whole program) is not claimed.",
       "DESIGN.md §3 C11")
 claim("C12", "other",
       "algebraic laws checked on composed method summaries (stop, play, rewind, end-of-tape path) over all 8x8 state/saved-state combinations; mod-ref of stop/play",
